@@ -854,7 +854,10 @@ class Gen:
                             ps = [self.fresh("a") for _ in ats]
                             env = dict(self.globals)
                             env.update(dict(zip(ps, ats)))
-                            defs.append(("define", f, ("lam", ps, None, [self.expr(rt, d, env)])))
+                            saved = self.funcs.pop(f)            # the new body must not call the name being redefined
+                            body = self.expr(rt, d, env)         # (unbounded self recursion)
+                            self.funcs[f] = saved
+                            defs.append(("define", f, ("lam", ps, None, [body])))
                             defined_here.add(f)
                             self.stat("redefine-fn")
             for _ in range(r.randint(1, 3)):
